@@ -187,6 +187,22 @@ func runTable(c *Ctx, ts tableSpec) {
 	if outcome == nil {
 		outcome = func(p Path) string { return defaultOutcome(fi.Pkg.TypesInfo, fi.Decl, p) }
 	}
+	// in a whole function without results, `return` and falling off the end are the same outcome
+	if ts.Body == nil && (fi.Decl.Type.Results == nil || len(fi.Decl.Type.Results.List) == 0) {
+		inner := outcome
+		norm := func(s string) string {
+			if s == "ret()" || strings.HasPrefix(s, "ret() ") {
+				return "end:fall" + strings.TrimPrefix(s, "ret()")
+			}
+			return s
+		}
+		outcome = func(p Path) string { return norm(inner(p)) }
+		exp := ts.Expected
+		ts.Expected = func(v *Valuation) (string, bool) {
+			s, ok := exp(v)
+			return norm(s), ok
+		}
+	}
 	type row struct {
 		f   Formula
 		out string
@@ -350,6 +366,18 @@ func defaultOutcome(info *types.Info, fd *ast.FuncDecl, p Path) string {
 	if rs, ok := p.EndNode.(*ast.ReturnStmt); ok && p.End == "return" {
 		var rv []string
 		for _, r := range rs.Results {
+			// a local bound to a helper's returned expression by an inline frame is classified by that expression
+			for hops := 0; hops < 4; hops++ {
+				id, ok := ast.Unparen(r).(*ast.Ident)
+				if !ok {
+					break
+				}
+				b, ok := p.bind[info.ObjectOf(id)]
+				if !ok {
+					break
+				}
+				r = b
+			}
 			rv = append(rv, classifyValue(info, fd, r, 0))
 		}
 		ret = "ret(" + strings.Join(rv, ", ") + ")"
